@@ -229,6 +229,13 @@ class SRange:
         self.start, self.stop, self.step = start, stop, step
 
 
+class SeqVal:
+    """a sequence of symbolic length: n items, item(j) for 0 <= j < n (the values a uniform loop yields / a comprehension builds)"""
+
+    def __init__(self, n, item):
+        self.n, self.item = n, item
+
+
 class PyRaise(Exception):
     """a Python-level exception travelling through the interpreted program"""
     def __init__(self, exc):
@@ -688,7 +695,13 @@ class Interp:
         return self._for(s, frame, key)
 
     def _for(self, s, frame, key):
-        it = self.iterate(self.eval(s.iter, frame))
+        itv = self.eval(s.iter, frame)
+        if isinstance(itv, SRange) and frame.func is not None and frame.func.is_generator and sym.have_ctx():
+            sv = self._uniform_map(s, frame, itv)
+            if sv is not None:
+                yield sv
+                return
+        it = self.iterate(itv)
         n = 0
         for v in it:
             n += 1
@@ -700,6 +713,47 @@ class Interp:
             except _Continue:
                 continue
         yield from self.exec_block(s.orelse, frame)
+
+    def _uniform_map(self, s, frame, rng):
+        """`for x in range(a, b, c): <body with exactly one yield, no other effect>` with symbolic bounds, as a SeqVal.
+        The body is executed for an arbitrary index to check its shape (one yield, no break/return, no heap write, no local
+        other than the loop variable assigned); item(j) re-executes it with the loop variable bound to a + j*c."""
+        from . import loops as _loops
+        if not isinstance(s.target, ast.Name) or s.orelse:
+            return None
+        assigned = _loops.assigned_names(s.body)
+        if assigned - {s.target.id}:
+            return None
+        if any(isinstance(n, (ast.Break, ast.Continue, ast.Return)) for st in s.body for n in ast.walk(st)):
+            return None
+        from . import extern as _ex
+        count = self.call(self.builtins['len'], [rng], {})
+
+        def item(j, frame=frame, s=s, rng=rng):
+            f2 = Frame(dict(frame.locals), frame.module, closure=frame.closure, func=frame.func)
+            f2.locals[s.target.id] = rng.start + j * rng.step
+            saved = self.write_log
+            self.write_log = []
+            try:
+                ys = list(self.exec_block(s.body, f2))
+                writes = self.write_log
+            finally:
+                self.write_log = saved
+            if len(ys) != 1 or writes:
+                raise Unsupported("loop body is not a uniform single-yield map")
+            return ys[0]
+        # shape check at an arbitrary index
+        c = sym.ctx()
+        k = SInt(c.fresh_int('it'))
+        c.solver.push()
+        try:
+            c.solver.add(sym._b(sym.land(k >= 0, k < count)))
+            item(k)
+        except PyRaise:
+            c.solver.pop()
+            return None          # the body can raise: not a pure map; fall back to unrolling
+        c.solver.pop()
+        return SeqVal(count, item)
 
     def iterate(self, v):
         """host iterator over an interpreted iterable"""
